@@ -28,7 +28,7 @@ REQUIRED = {
 
 
 def budget(tier):
-    return 1200 if tier == "quick" else 40000
+    return 1200 if tier == "quick" else 120000
 
 
 def gen_case(rng, tier, idx):
